@@ -354,6 +354,8 @@ class Origin:
         if name == "std::ops::FromResidual::from_residual":
             return ("fromresidual", args[0])
         tgt = cv.target
+        if "layout_value" in t["callee"]:
+            return ("const", t["callee"]["layout_value"], "usize")
         if name in ("std::mem::size_of", "core::mem::size_of", "std::mem::align_of") and cv.targs and cv.targs[0] in INT_BITS:
             return ("const", INT_BITS[cv.targs[0]] // 8, "usize")
         return ("call", tgt, args, (self.b.short, bi))
